@@ -2,6 +2,7 @@ package props
 
 import (
 	"fmt"
+	"time"
 
 	"verif/harness/core"
 	"verif/harness/mon"
@@ -23,6 +24,8 @@ func (c04) Assumptions() []string {
 func (c04) Required() []string {
 	return []string{"images_process_death", "images_partial_write", "images_power_loss", "batches_multi_flush", "batches_sync", "restarts", "point"}
 }
+
+func (c04) CaseBudget(string) time.Duration { return 900 * time.Second }
 
 func (c04) Cases(tier string, seed uint64) []core.Case {
 	n := 16
